@@ -22,7 +22,7 @@ from ..acc import Acc
 ID = "C07"
 LEVEL = "model_checking"
 TECHNIQUE = "explicit-state BFS over real storage objects (all dump keys as transitions, full read alphabet on every state) against a reference masked NumPy array"
-RULE = ("backends FileArray, DictArray, SharedMemoryDictArray x full shapes (3,), (2,3) (thorough: (3,) depth 5, (2,3) depth 3, (3,2) depth 2, (2,3,2) depth 1) x all 2^rank external/internal masks; "
+RULE = ("backends FileArray (rank <= 2 also with a custom filename_template), DictArray, SharedMemoryDictArray x full shapes (3,), (2,3) (thorough: (3,) depth 5, (2,3) depth 3, (3,2) depth 2, (2,3,2) depth 1) x all 2^rank external/internal masks; "
         "transitions = dump(key, fresh value; for the all-external masks of rank <= 2 also the same exploration with None as the value of every odd write) for EVERY external key tuple over ints in [-n,n) and slices {:, ::2, ::-1, 1:}; reads on every state = "
         "__getitem__ for every full-rank key tuple from the same per-axis menu, to_array(splat_internal None/False/True), mask, mask_linear, has_index, "
         "get_from_index, persist+reopen, and error keys (each axis out of range by +-1, rank +-1). SharedMemoryDictArray at depth 1 for rank 2 in quick (every proxy call is an RPC). States merged by stored content with values renamed by first appearance")
@@ -70,6 +70,8 @@ def make(cfg, folder):
     kw = {}
     if cfg["backend"] == "shared_memory_dict":
         kw["mapping"] = _manager().dict()
+    if cfg.get("filename_template"):
+        kw["filename_template"] = cfg["filename_template"]  # FileArray only: a non-default name for the element files
     return cls(folder, ext, internal or None, mask if internal else None, **kw)
 
 
@@ -281,12 +283,7 @@ def reopen_diffs(cfg, arr, ref, folder):
     """persist, then a second object of the same class on the same folder must read the same content"""
     try:
         arr.persist()
-        kw = {}
-        full, mask, ext, internal = geometry(cfg)
-        cls = CLASSES[cfg["backend"]]
-        if cfg["backend"] == "shared_memory_dict":
-            kw["mapping"] = _manager().dict()
-        arr2 = cls(folder, ext, internal or None, mask if internal else None, **kw)
+        arr2 = make(cfg, folder)  # the same constructor arguments (incl. a custom filename_template)
     except Exception as e:  # noqa: BLE001
         return [("persist+reopen", f"raised {type(e).__name__}: {str(e)[:80]}", "same content", {"exc": type(e).__name__, "site": findings.exc_site(e)})]
     return [(f"reopened.{w}", a, b, x) for w, a, b, x in read_table(cfg, arr2, ref, folder, full_reads=False)]
@@ -391,6 +388,11 @@ def plan(tier, seed):
                 nch = 1 if len(full) == 1 else (8 if all(mask) else 4)
                 for c in range(nch):
                     units.append((f"rank{len(full)}-depth{depth}", ("bfs", cfg, depth_b, c, nch)))
+                if backend == "file_array" and len(full) <= 2:
+                    # FileArray with a custom filename_template (every operation must use the instance's template)
+                    for c in range(nch):
+                        units.append((f"rank{len(full)}-depth{depth}-custom-filename-template",
+                                      ("bfs", {**cfg, "filename_template": "element-{:d}.pkl"}, depth_b, c, nch)))
                 if all(mask) and len(full) <= 2:
                     # the same exploration with None as the value of every odd write (a written None is not a missing element)
                     for c in range(nch):
